@@ -20,7 +20,7 @@ SPEC = {
                'thorough': {'enumerated': 'length 1-2 (40%)', 'random': 'until the time budget'}},
     'floor': {'quick': 200000, 'thorough': 2000000},
     'required_counters': ['fnmatch_slash_patterns', 'relation_checks', 'icase_vectors', 'win_separator_checks', 'win_vs_unix_icase_checks', 'drive_checks',
-                          'literal_exact_checks', 'bytes_checks'],
+                          'literal_exact_checks', 'bytes_checks', 'glob_case_tree_checks'],
     'budget': {'quick': 45, 'thorough': 480},
     'shard_timeout': {'quick': 400, 'thorough': 1500},
     'assumptions': ['only ASCII letters take part in case relations', 'the platform is Linux: Windows rules are observed through FORCEWIN'],
@@ -469,9 +469,53 @@ def bracket_backslash_templates(ctx):
     ctx.count('bracket_backslash_checks', n)
 
 
+CASE_TREE = [('top', 'd', None), ('top/pkg', 'd', None), ('top/pkg/a.py', 'f', None), ('top/PKG', 'd', None), ('top/PKG/b.py', 'f', None),
+             ('top/Pkg', 'd', None), ('top/Pkg/C.PY', 'f', None), ('x', 'd', None), ('x/pkg', 'd', None), ('x/pkg/d.py', 'f', None),
+             ('README', 'f', None), ('readme', 'f', None), ('top/pkg/sub', 'd', None), ('top/PKG/SUB', 'd', None), ('top/PKG/SUB/e.py', 'f', None)]
+
+
+def glob_case_tree(ctx):
+    """The walker is in the same mode as the matcher: on a tree with case twins (this file system is case sensitive) glob() under
+    IGNORECASE returns exactly the entries globmatch() accepts under IGNORECASE - every twin of a literal segment, first or not -
+    and under CASE / no flag exactly the ones the case-sensitive globmatch() accepts."""
+    from .. import tree as T
+    pats = ['*/pkg/*.py', 'top/pkg/*.py', 'TOP/pkg/*', 'top/PKG/*', '*/pkg/', 'top/pkg', 'readme', 'ReadMe', 'top/p[k]g/*.py', 'top/pkg/sub/*.py',
+            '*/pkg/sub/', '**/pkg/*.py', 'top/*/c.py', 'top/pkg/a.py', '*/PKG/sub/e.PY', 'x/PKG/*']
+    fsets = [('IGNORECASE',), ('IGNORECASE', 'GLOBSTAR'), ('IGNORECASE', 'NOUNIQUE'), ('CASE',), (), ('IGNORECASE', 'CASE'), ('IGNORECASE', 'MARK')]
+    entries = [(p, k == 'd') for p, k, _t in CASE_TREE]
+    with T.Tree(CASE_TREE, 'c17t-') as tr:
+        for pat in pats:
+            for fs in fsets:
+                flags = flags_of(fs) if fs else 0
+                wit = {'tree': CASE_TREE, 'pattern': pat, 'flags': list(fs), 'mode': 'glob-case-tree'}
+                with ctx.case(label=('glob-case-tree', pat, fs)):
+                    try:
+                        got = sorted({x.rstrip('/') for x in G.glob(pat, flags=flags, root_dir=tr.root)})
+                        want = sorted(p for p, isdir in entries
+                                      if G.globmatch(p + '/' if isdir else p, pat, flags=flags & ~G.MARK & ~G.NOUNIQUE) or
+                                      (not pat.endswith('/') and G.globmatch(p, pat, flags=flags & ~G.MARK & ~G.NOUNIQUE)))
+                    except Exception as e:  # noqa: BLE001
+                        ctx.disagree(f'glob / globmatch raised {type(e).__name__}', dict(wit, exception=repr(e)[:200]))
+                        continue
+                    ctx.evals(len(entries) + 1)
+                    ctx.count('glob_case_tree_checks')
+                    if 'IGNORECASE' in fs and 'CASE' not in fs and 'NOUNIQUE' not in fs:
+                        # the duplicate filter works on case-folded paths under a case-insensitive rule: of two entries whose whole
+                        # paths differ only in case one may stand for both (C13: observed, not asserted) - compare modulo case
+                        got, want = sorted({x.lower() for x in got}), sorted({x.lower() for x in want})
+                        ctx.count('glob_case_tree_checks_modulo_case')
+                    if got != want:
+                        ctx.disagree('glob() on a tree with case twins differs from the entries globmatch() accepts in the same mode',
+                                     dict(wit, glob=got, globmatch_accepts=want))
+                    elif got:
+                        ctx.mark_nontrivial(('glob-case-tree', pat, fs))
+
+
 def run(ctx):
     quick = ctx.quick
     bare_drive_checks(ctx)
+    if ctx.mine(1):
+        glob_case_tree(ctx)
     if ctx.shard == 0:
         bracket_backslash_templates(ctx)
         simple_pairs_outside_ascii(ctx)
@@ -534,6 +578,9 @@ def run(ctx):
 
 
 def replay(ctx, w):
+    if w.get('mode') == 'glob-case-tree':
+        glob_case_tree(ctx)
+        return ctx.violations or None
     if w.get('mode') == 'caseless-text':
         caseless_text_templates(ctx)
         return ctx.violations or None
